@@ -35,6 +35,8 @@ type caseT struct {
 	Mod   string   `json:"module,omitempty"`
 	Ver   string   `json:"version,omitempty"`
 	Calls []string `json:"call_history,omitempty"`
+	Wd    string   `json:"working_directory,omitempty"` // \x00 stands for the scratch directory
+	Dir   string   `json:"directory_argument,omitempty"`
 }
 
 func refSummary(files map[string]string) string {
@@ -318,6 +320,106 @@ func Run(r *fw.Run) {
 
 	// module archives
 	zipPart(r)
+
+	// spellings of the directory argument, including the current directory (sequential: chdir is process wide)
+	dirPart(r)
+}
+
+// dirTrees are small file trees whose top level has dot files and their undotted twins.
+func dirTrees() []map[string]string {
+	return []map[string]string{
+		{"a.go": "package a\n", "sub/b.go": "x"},
+		{".gitignore": "*.o\n", "a.go": "x"},
+		{".gitignore": "dot", "gitignore": "plain"},
+		{".github/ci.yml": "on: push\n", "github/ci.yml": "other", "sub/.keep": ""},
+		{"..a": "1", ".a": "2", "a": "3", "sub/..a": "4", "sub/.a": "5"},
+		{"sub/sub/x": "1", "sub/x": "2", "x": "3"},
+	}
+}
+
+// dirSpellings lists (working directory relative to the tree's parent, dir argument) pairs that all name the tree root t.
+func dirSpellings(parent string) [][2]string {
+	t := filepath.Join(parent, "t")
+	return [][2]string{
+		{parent, t}, {parent, t + "/"}, {parent, t + "/."}, {parent, t + "//"}, {parent, parent + "/./t"}, {parent, t + "/sub/.."},
+		{parent, "t"}, {parent, "./t"}, {parent, "t/"}, {parent, "t/."}, {parent, "./t/./"}, {parent, "t/sub/.."},
+		{t, "."}, {t, "./"}, {t, "./."}, {t, "sub/.."}, {t, "../t"},
+		{filepath.Join(t, "sub"), ".."}, {filepath.Join(t, "sub"), "../"}, {filepath.Join(t, "sub"), "../."}, {filepath.Join(t, "sub"), "./.."},
+	}
+}
+
+func dirCase(scratch string, tree map[string]string, wd, dir, prefix string) string {
+	parent := filepath.Join(scratch, "dirpart")
+	os.RemoveAll(parent)
+	defer os.RemoveAll(parent)
+	t := filepath.Join(parent, "t")
+	os.MkdirAll(filepath.Join(t, "sub"), 0o755)
+	want := map[string]string{}
+	for n, d := range tree {
+		full := filepath.Join(t, filepath.FromSlash(n))
+		os.MkdirAll(filepath.Dir(full), 0o755)
+		if err := os.WriteFile(full, []byte(d), 0o644); err != nil {
+			return "scratch write failed: " + err.Error()
+		}
+		want[prefix+"/"+n] = d
+	}
+	old, err := os.Getwd()
+	if err != nil {
+		return ""
+	}
+	wd = strings.Replace(wd, "\x00", parent, 1)
+	dir = strings.Replace(dir, "\x00", parent, 1)
+	if err := os.Chdir(wd); err != nil {
+		return "chdir failed: " + err.Error()
+	}
+	defer os.Chdir(old)
+	got, err := dirhash.HashDir(dir, prefix, dirhash.Hash1)
+	if err != nil {
+		return fmt.Sprintf("HashDir(%q) with working directory <scratch>%s fails: %v", dir, strings.TrimPrefix(wd, parent), err)
+	}
+	if w := refHash(want); got != w {
+		files, _ := dirhash.DirFiles(dir, prefix)
+		return fmt.Sprintf("HashDir(%q) with working directory <scratch>%s = %s, the documented formula over the tree gives %s (DirFiles: %q)", dir, strings.TrimPrefix(wd, parent), got, w, files)
+	}
+	return ""
+}
+
+func dirPart(r *fw.Run) {
+	scratch := r.Scratch()
+	parent := filepath.Join(scratch, "dirpart")
+	trees := dirTrees()
+	sp := dirSpellings(parent)
+	prefixes := []string{"example.com/m@v1.0.0", "p"}
+	r.Bounds["directory_spellings"] = len(sp)
+	r.Bounds["directory_trees"] = len(trees)
+	l := fw.NewLocal()
+	for ti, tree := range trees {
+		for _, s := range sp {
+			for _, prefix := range prefixes {
+				l.States++
+				l.Execs++
+				l.Transitions++
+				wd := strings.Replace(s[0], parent, "\x00", 1)
+				dir := strings.Replace(s[1], parent, "\x00", 1)
+				if msg := dirCase(scratch, tree, wd, dir, prefix); msg != "" {
+					c := caseT{Kind: "dir", Mod: prefix, Wd: wd, Dir: dir}
+					var ns []string
+					for n := range tree {
+						ns = append(ns, n)
+					}
+					sort.Strings(ns)
+					for _, n := range ns {
+						c.Files = append(c.Files, pairT{strconv.QuoteToASCII(n), strconv.QuoteToASCII(tree[n])})
+					}
+					r.Violation(fmt.Sprintf("dir:%d:%s:%s", ti, strings.TrimPrefix(s[0], parent), strings.TrimPrefix(s[1], parent)), msg, c)
+				} else {
+					l.Nontrivial++
+					l.Outcomes["dir:ok"]++
+				}
+			}
+		}
+	}
+	r.Merge(l)
 }
 
 type countingCloser struct {
@@ -595,6 +697,16 @@ func Replay(r *fw.Run, raw json.RawMessage) {
 				r.Violation("history", msg, c)
 				return
 			}
+		}
+		return
+	}
+	if c.Kind == "dir" {
+		tree := map[string]string{}
+		for i := range nm {
+			tree[nm[i]] = ct[i]
+		}
+		if msg := dirCase(r.Scratch(), tree, c.Wd, c.Dir, c.Mod); msg != "" {
+			r.Violation("dir", msg, c)
 		}
 		return
 	}
